@@ -7,6 +7,15 @@ import time
 import z3
 
 
+def show_val(v):
+    """printable python value of a model value; z3 strings are unescaped (\\u{XX} -> chr)"""
+    import re as _re
+
+    if z3.is_string_value(v):
+        return _re.sub(r"\\u\{([0-9a-fA-F]+)\}", lambda m: chr(int(m.group(1), 16)), v.as_string())
+    return str(v)
+
+
 class Session:
     """collects the queries of one obligation and turns them into one verdict"""
 
@@ -38,7 +47,7 @@ class Session:
         self.queries += 1
         if r == z3.sat:
             m = s.model()
-            self.witnesses.append({label: {str(v): str(m.eval(v, model_completion=True)) for v in show}})
+            self.witnesses.append({label: {str(v): show_val(m.eval(v, model_completion=True)) for v in show}})
             return True
         self.unknown.append(f"{label}: assumptions {r}")
         return False
@@ -58,7 +67,7 @@ class Session:
             return True
         if r == z3.sat:
             m = s.model()
-            self.failed.append({"label": label, "model": {str(v): str(m.eval(v, model_completion=True)) for v in show}
+            self.failed.append({"label": label, "model": {str(v): show_val(m.eval(v, model_completion=True)) for v in show}
                                 or {str(d): str(m[d]) for d in m.decls()[:12]}})
             return False
         self.unknown.append(f"{label}: {r} ({s.reason_unknown()})")
